@@ -233,6 +233,9 @@ def run(chk, db):
     from . import c13cmp
     c13cmp.rules(chk, db, 'CMP')
     messages(chk, db, 'MSG')
+    from .. import witness
+    witness.run(chk, 'c13_moves.cpp', 'MVW', 'compile-time witnesses: move construction / move assignment / converting move assignment of Optional, Entry, '
+                'whole tables, Result and Variant compile for a move-only element type (so overload resolution selects the rvalue overloads)', minimum=5)
     chk.explanation = (
         'Exhaustive exploration of the abstract state space of Result<E,T> and Optional<T> (T non-trivially destructible) derived from the '
         'code by abstract execution: every constructor and public operation from every reachable state with every abstract argument '
